@@ -924,6 +924,7 @@ func genC18(tier string, rng *Rng) {
 	for _, w := range []string{"30", "120"} {
 		runOp([]string{"c18race", w})
 	}
+	genC18Sig(tier)
 	if tier == "thorough" {
 		runOp([]string{"c18conc", "400"})
 	} else {
